@@ -229,8 +229,43 @@ func ruleC02RecordMatchesKey(c *Ctx) {
 			c.bad(shortName(f)+"/record", u.pos(f.Pos()), "no call to tryStore with a record")
 			continue
 		}
+		// the record may be built by a helper that is handed the key (and its parent): analyse the literal where it is built
+		origF := f
+		keyIdx, parentIdx := spec.keyParam, spec.parent
+		if ex, isEx := resolve(rec).(*ssa.Extract); isEx && ex.Index == 0 {
+			if call, isCall := ex.Tuple.(*ssa.Call); isCall {
+				if h := staticCallee(call); h != nil && h.Blocks != nil && h.Pkg != nil && h.Pkg.Pkg.Path() == pkgApp {
+					ki, pi := -1, -1
+					for k, a := range call.Call.Args {
+						if resolve(a) == ssa.Value(f.Params[spec.keyParam]) || accessPath(a) == "P:"+f.Params[spec.keyParam].Name() {
+							ki = k
+						}
+						if spec.parent >= 0 && (resolve(a) == ssa.Value(f.Params[spec.parent]) || accessPath(a) == "P:"+f.Params[spec.parent].Name()) {
+							pi = k
+						}
+					}
+					var hrec ssa.Value
+					for _, hr := range returnsOf(h) {
+						if len(hr.Results) == 2 && isNilValue(returnedValue(hr, 1)) && !isNilValue(returnedValue(hr, 0)) {
+							hrec = returnedValue(hr, 0)
+						}
+					}
+					if ki >= 0 && (spec.parent < 0 || pi >= 0) && hrec != nil {
+						f, rec, keyIdx = h, hrec, ki
+						if spec.parent >= 0 {
+							parentIdx = pi
+						}
+						c.FuncsAnalysed[shortName(h)] = true
+					}
+				}
+			}
+		}
 		fields := litFields(resolve(rec))
-		key := f.Params[spec.keyParam]
+		if fields == nil || fields["Created"] == nil || fields["ID"] == nil || fields["EncryptedKey"] == nil {
+			c.bad(shortName(origF)+"/record", u.pos(origF.Pos()), "the record handed to tryStore is not a composite literal with Created, ID and EncryptedKey built here (or by a helper given the key)")
+			continue
+		}
+		key := f.Params[keyIdx]
 		var problems []string
 		// Created
 		if cv, ok := resolve(fields["Created"]).(*ssa.Call); !ok || methodNameOf(&cv.Call) != "Created" || resolve(receiverOf(&cv.Call)) != ssa.Value(key) {
@@ -247,7 +282,7 @@ func ruleC02RecordMatchesKey(c *Ctx) {
 				if act, isAcc := accessorAction(call); isAcc && resolve(call.Call.Args[0]) == ssa.Value(key) {
 					af := actionFunc(act)
 					if af != nil {
-						switch spec.parent {
+						switch parentIdx {
 						case -1:
 							// closure: return KMS.EncryptKey(ctx, keyBytes) with keyBytes = closure param
 							allInstrs(af, func(j ssa.Instruction) {
@@ -263,7 +298,7 @@ func ruleC02RecordMatchesKey(c *Ctx) {
 									return
 								}
 								act2, isAcc2 := accessorAction(jc)
-								if !isAcc2 || !strings.HasSuffix(accessPath(jc.Call.Args[0]), "P:"+f.Params[spec.parent].Name()) {
+								if !isAcc2 || !strings.HasSuffix(accessPath(jc.Call.Args[0]), "P:"+f.Params[parentIdx].Name()) {
 									return
 								}
 								af2 := actionFunc(act2)
@@ -288,16 +323,21 @@ func ruleC02RecordMatchesKey(c *Ctx) {
 		if !encOK {
 			problems = append(problems, "EncryptedKey is not the ciphertext of this key's bytes under its parent (KMS.EncryptKey for the SK; AEAD.Encrypt(ikBytes, skBytes) for the IK)")
 		}
-		if spec.parent >= 0 {
+		if parentIdx >= 0 && fields["ParentKeyMeta"] == nil {
+			problems = append(problems, "ParentKeyMeta is not set")
+		} else if parentIdx >= 0 {
 			pm := litFields(resolve(fields["ParentKeyMeta"]))
-			if cv, ok := resolve(pm["Created"]).(*ssa.Call); !ok || methodNameOf(&cv.Call) != "Created" || resolve(receiverOf(&cv.Call)) != ssa.Value(f.Params[spec.parent]) {
+			if pm == nil || pm["Created"] == nil || pm["ID"] == nil {
+				pm = map[string]ssa.Value{"Created": fields["ParentKeyMeta"], "ID": fields["ParentKeyMeta"]}
+			}
+			if cv, ok := resolve(pm["Created"]).(*ssa.Call); !ok || methodNameOf(&cv.Call) != "Created" || resolve(receiverOf(&cv.Call)) != ssa.Value(f.Params[parentIdx]) {
 				problems = append(problems, "ParentKeyMeta.Created is not Created() of the system key that wrapped the IK")
 			}
 			if cv, ok := resolve(pm["ID"]).(*ssa.Call); !ok || !cv.Call.IsInvoke() || cv.Call.Method.Name() != "SystemKeyID" {
 				problems = append(problems, "ParentKeyMeta.ID is not partition.SystemKeyID()")
 			}
 		}
-		c.check(len(problems) == 0, shortName(f)+"/record", u.pos(f.Pos()), "stored record describes exactly the key being stored (Created, ID, EncryptedKey"+map[bool]string{true: ", ParentKeyMeta", false: ""}[spec.parent >= 0]+")",
+		c.check(len(problems) == 0, shortName(origF)+"/record", u.pos(origF.Pos()), "stored record describes exactly the key being stored (Created, ID, EncryptedKey"+map[bool]string{true: ", ParentKeyMeta", false: ""}[spec.parent >= 0]+")",
 			"the record written to the metastore does not describe the key being stored: "+strings.Join(problems, "; "))
 	}
 	// tryStore passes the record's own ID/Created and the record
